@@ -80,7 +80,68 @@ VECTORS = ['+x', '-x', '+y', '-y', '+z', '-z', 'generic', 'near+x',
 def plan(tier):
     return [(f'{att}|{rot}', _PER[tier]) for att in ATTACH
             for rot in ROT_CLASSES] + \
-        [(f'one-vector|{vec}', _PER[tier]) for vec in VECTORS]
+        [(f'one-vector|{vec}', 16 if tier == 'quick' and
+          (vec == 'generic' or vec.startswith('near')) else _PER[tier])
+         for vec in VECTORS]
+
+
+def build_one_column(case, vclass, vec):
+    '''The one vector given as a column j of the matrix: the main axis j
+    expressed in the auxiliary frame.  Judged with objects that are symmetric
+    about that direction of the auxiliary frame: a plane perpendicular to
+    it, a sphere centred on it.'''
+    rng = case.rng
+    j = rng.randrange(3)
+    typed = [float(v) for v in vec]
+    if rng.random() < 0.6 or vclass == 'generic':
+        typed = [round(v, rng.choice([2, 2, 3, 4])) for v in typed]
+        if rng.random() < 0.25:
+            typed = [v * rng.choice([2.0, 0.5, 3.0]) for v in typed]
+        if np.linalg.norm(typed) < 0.1:
+            typed = [float(v) for v in vec]
+    unit = np.array(typed) / np.linalg.norm(typed)
+    helper = np.eye(3)[int(np.argmin(abs(unit)))]
+    second = np.cross(unit, helper)
+    second /= np.linalg.norm(second)
+    third = np.cross(unit, second)
+    main_in_aux = np.zeros((3, 3))          # rows: main axes in the aux frame
+    main_in_aux[j], main_in_aux[(j + 1) % 3], main_in_aux[(j + 2) % 3] = \
+        unit, second, third
+    org = [round(rng.uniform(-3, 3), 3) for _ in range(3)]
+    motion = ref.Motion(org, main_in_aux.T)
+    dval = round(rng.uniform(-1.5, 1.5), 3)
+    rad = round(rng.uniform(0.8, 2.0), 3)
+    kind, params = rng.choice([
+        ('p', list(typed) + [dval * float(np.linalg.norm(typed))]),
+        ('so', [rad]),
+        ('s', [float(v) for v in dval * unit] + [rad])])
+    sur = M.Surf(1, kind, params)
+    deck = probe_deck([sur], [M.S(-1), M.S(1)],
+                      title=f'C04 one-vector column {vclass} {kind}')
+    ent = [None] * 9
+    for k in range(3):
+        ent[3 * k + j] = typed[k]
+    form = rng.choice(['card', 'inline'])
+    if form == 'card':
+        deck.trs = [M.TrCard(7, org, ent, motion=motion)]
+        if rng.random() < 0.5:
+            sur.tr = 7
+        else:
+            for cel in deck.cells:
+                if cel.id != 900:
+                    cel.trcl = M.TrSpec(number=7)
+    else:
+        for cel in deck.cells:
+            if cel.id != 900:
+                cel.trcl = M.TrSpec(origin=org, entries=list(ent),
+                                    motion=motion)
+    deck.tags.update({'attach.one-vector', 'vector.column', f'column.{j + 1}',
+                      f'vector.{vclass}', f'kind.{kind}', f'form.{form}'})
+    cen = motion.to_main(dval * unit)
+    deck.hints = [cen + np.array(off) for off in
+                  ((0, 0, 0), (1, 0, 0), (0, 1, 0), (0, 0, 1), (-1, -1, -1))]
+    deck.case_motion = motion
+    return deck
 
 
 def build_one_vector(case, vclass):
@@ -102,6 +163,8 @@ def build_one_vector(case, vclass):
         vec = np.zeros(3)
         vec['xyz'.index(vclass[1])] = 1.0 if vclass[0] == '+' else -1.0
     vec = vec / np.linalg.norm(vec)
+    if rng.random() < (0.5 if vclass == 'generic' else 0.3):
+        return build_one_column(case, vclass, vec)
     # any proper rotation whose row i is the vector
     helper = np.eye(3)[int(np.argmin(abs(vec)))]
     second = np.cross(vec, helper)
